@@ -143,3 +143,17 @@ package xlsx
 //@   property C17
 //@   ensures corners: !err ==> len(strings.Split(ref, ":")) == 2 && startCol == ParseCellRef(strings.Split(ref, ":")[0]) && startRow == ParseCellRef$1(strings.Split(ref, ":")[0]) && endCol == ParseCellRef(strings.Split(ref, ":")[1]) && endRow == ParseCellRef$1(strings.Split(ref, ":")[1])
 //@   ensures bad_corner_is_error: len(strings.Split(ref, ":")) != 2 || ParseCellRef$2(strings.Split(ref, ":")[0]) || ParseCellRef$2(strings.Split(ref, ":")[1]) ==> err
+
+// shared-string table: entry i is the i-th <si> (the plain text, or the runs of a rich-text item concatenated in
+// order); cells refer to entries by index, so the table must be index-stable
+//@ func (*Reader) parseSharedStrings results (err)
+//@   property C17
+//@   flags nosafety
+//@   loop 0:
+//@     invariant len(r.sharedStrings) == len(sst.SI)
+//@     step plain_item: len(si.T) > 0 ==> sameseq(r.sharedStrings[i], si.T)
+//@     step rich_item_without_runs_is_empty: len(si.T) == 0 && len(si.R) == 0 ==> len(r.sharedStrings[i]) == 0
+//@     step other_entries_kept: forall k int :: {r.sharedStrings[k]} 0 <= k && k < len(r.sharedStrings) && k != i ==> r.sharedStrings[k] == prev(r.sharedStrings)[k]
+//@   loop 1:
+//@     invariant len(r.sharedStrings) == len(sst.SI) && ($i == 0 ==> len(text) == 0)
+//@     step runs_concatenated_in_order: same(text, strcat(prev(text), run.T))
